@@ -529,3 +529,27 @@ Example ex_value_range :
   value_range_old (as_arr ex_arr) (v3z 1 0 1) (v3z 1 2 2) = Some (5, 5) /\
   in_region (v3z 0 0 0) (v3z 2 2 2) (v3z 0 0 0).
 Proof. unfold in_region. cbn [vec3_x vec3_y vec3_z v3z]. repeat split; try lia; vm_compute; reflexivity. Qed.
+
+(* ---- Array3DRepeater as coded: a mirror-repeat with period repeatedSize (not the source's size); inside
+   [0, repeatedSize) it hands the coordinate through unchanged *)
+Theorem repeater_def :
+  forall a rs w,
+  a_get (repeater a rs) w = a_get a (rep_coord rs w) /\ a_dims (repeater a rs) = rs /\ a_num (repeater a rs) = total3 rs.
+Proof. exact ProofsArr.repeater_def. Qed.
+Print Assumptions repeater_def.
+
+Theorem rep_axis_mirror :
+  forall n w, 0 < n -> 0 <= w ->
+  rep_axis n w = (if Z.even (w / n) then w mod n else n - 1 - w mod n) /\ 0 <= rep_axis n w < n.
+Proof. exact ProofsArr.rep_axis_mirror. Qed.
+Print Assumptions rep_axis_mirror.
+
+Theorem repeater_inside :
+  forall a rs w, in3 rs w -> a_get (repeater a rs) w = a_get a w.
+Proof. exact ProofsArr.repeater_inside. Qed.
+Print Assumptions repeater_inside.
+
+Example ex_repeater :
+  a_get (repeater (as_arr ex_arr) (v3z 4 4 4)) (v3z 5 0 1) = a_get (as_arr ex_arr) (v3z 2 0 1) /\
+  a_get (repeater (as_arr ex_arr) (v3z 4 4 4)) (v3z 3 0 1) = 5 /\ in3 (v3z 4 4 4) (v3z 3 0 1).
+Proof. unfold in3. cbn [vec3_x vec3_y vec3_z v3z]. repeat split; try lia; vm_compute; reflexivity. Qed.
